@@ -261,6 +261,27 @@ def conj(c):
     return [c]
 
 
+def disj(c):
+    c = strip(c)
+    if c.get('k') == 'bin' and c.get('op') == '||':
+        return disj(c['x']) + disj(c['y'])
+    return [c]
+
+
+def leaves_loop(s_):
+    """the statement ends with return or break on every path (continue does not leave the loop)"""
+    if s_ is None:
+        return False
+    k = s_.get('k')
+    if k in ('return', 'break'):
+        return True
+    if k == 'block':
+        return any(leaves_loop(x) for x in s_['s']) and not any(x.get('k') == 'continue' for x in s_['s'])
+    if k == 'if':
+        return bool(s_.get('else')) and leaves_loop(s_['then']) and leaves_loop(s_['else'])
+    return False
+
+
 def check_lookahead(ctx, prog):
     import C15
     sub = type(ctx)(ctx.prop, ctx.tier, ctx.seed)
@@ -296,6 +317,21 @@ def check_lookahead(ctx, prog):
             ctx.check(allowed is not None and j <= allowed, 'C09.lookahead', f['pq'], 'decode:look-ahead q0[i + %d]' % j, fwhere(f, e['l']), 'dominated by i <= length - %s' % allowed,
                       'Url::decode reads q0[i + %d] but the dominating guard only establishes i + %s <= length(): a trailing %% reads past the terminator' % (j, allowed))
     ctx.floor('C09.lookahead decode', n, 2)
+    # decoded characters are appended only when non-zero (a NUL would hide the rest from the C-string based '..' check)
+    g = q.Guarded(f)
+    apps = [e for e in fn_exprs(f) if e.get('k') == 'call' and e.get('pq') == 'asl::String::operator<<' and e.get('a') and
+            any(w.get('k') == 'call' and w.get('fn') == 'strtoul' for w in walk_expr(e['a'][0])) or
+            (e.get('k') == 'call' and e.get('pq') == 'asl::String::operator<<' and e.get('a') and strip(e['a'][0]).get('k') == 'var' and
+             any(v.get('id') == strip(e['a'][0]).get('id') and v.get('init') is not None and any(w.get('k') == 'call' and w.get('fn') == 'strtoul' for w in walk_expr(v['init']))
+                 for s_ in ir.walk_stmts(f['body']) if s_.get('k') == 'decl' for v in s_['vars']))]
+    okn = bool(apps)
+    for e in apps:
+        a0 = strip(e['a'][0])
+        guarded = a0.get('k') == 'var' and any(kind == 'if' and ((pol is True and strip(c).get('op') == '!=' and strip(strip(c)['x']).get('id') == a0.get('id') and const_val(strip(c)['y']) == 0) or
+                                                               (pol is True and strip(c).get('k') == 'var' and strip(c).get('id') == a0.get('id'))) for c, pol, kind in g.of(e))
+        okn = okn and guarded
+    ctx.check(okn, 'C09.lookahead', f['pq'], 'decode:a decoded NUL is never appended', fwhere(f), 'append guarded by ch != 0',
+              "Url::decode appends the decoded byte without excluding NUL: '%00' embeds a terminator, and the C-string based \"..\" check of the request path no longer sees what follows it")
     u = fn1(prog, 'asl::Url::Url', '(const asl::String &)')
     ctx.analysed(u)
     g = q.Guarded(u)
@@ -305,9 +341,20 @@ def check_lookahead(ctx, prog):
             ix = strip(e['a'][0])
             if ix.get('k') == 'bin' and ix.get('op') == '+' and const_val(ix['y']) == 1 and strip(ix['x']).get('k') == 'var':
                 v = strip(ix['x'])
-                ok = any(kind == 'after' and pol is False and strip(c).get('op') == '<' and strip(strip(c)['x']).get('id') == v['id'] and const_val(strip(c)['y']) == 0 for c, pol, kind in g.of(e))
+                def notfound_disjunct(c):
+                    for part in disj(c):
+                        part = strip(part)
+                        if part.get('k') == 'bin' and part.get('op') == '<' and strip(part['x']).get('id') == v['id'] and const_val(part['y']) == 0:
+                            return True
+                    return False
+                ok = any(kind == 'after' and pol is False and notfound_disjunct(c) for c, pol, kind in g.of(e))
                 ctx.check(ok, 'C09.lookahead', u['pq'], 'Url:url[%s + 1] only after %s >= 0' % (v['n'], v['n']), fwhere(u, e['l']), 'guarded by the not-found return',
                           'Url::Url reads url[%s + 1] without first returning when %s is -1 (not found)' % (v['n'], v['n']))
+                # the closing bracket must lie before the path start, otherwise the port substring has a negative length
+                okb = any(kind == 'after' and pol is False and any(strip(p).get('k') == 'bin' and strip(p).get('op') in ('>=', '>') and strip(strip(p)['x']).get('id') == v['id'] and strip(strip(p)['y']).get('k') == 'var' for p in disj(c))
+                          for c, pol, kind in g.of(e))
+                ctx.check(okb, 'C09.lookahead', u['pq'], 'Url:closing bracket lies before the path start', fwhere(u, e['l']), 'rejected when %s >= path start' % v['n'],
+                          'Url::Url accepts a `]` that comes after the first `/`: the port is then cut as a substring whose start lies behind its end (negative length)')
 
 
 def check_lines(ctx, prog):
@@ -333,7 +380,7 @@ def check_lines(ctx, prog):
     h = fn1(prog, 'asl::HttpMessage::readHeaders')
     ctx.analysed(h)
     g = q.Guarded(h)
-    rets = [s_ for s_ in ir.walk_stmts(h['body']) if s_.get('k') == 'if' and strip(s_['c']).get('k') == 'bin' and strip(s_['c']).get('op') == '<' and const_val(strip(s_['c'])['y']) == 0 and q.always_exits(s_['then'])]
+    rets = [s_ for s_ in ir.walk_stmts(h['body']) if s_.get('k') == 'if' and strip(s_['c']).get('k') == 'bin' and strip(s_['c']).get('op') == '<' and const_val(strip(s_['c'])['y']) == 0 and leaves_loop(s_['then'])]
     ctx.check(bool(rets), 'C09.lines', h['pq'], "readHeaders:stops on a line without ':'", fwhere(h), 'i < 0 -> close and return', "readHeaders does not stop on a header line without ':': garbage (or an empty line after EOF) keeps the loop running")
     b = fn1(prog, 'asl::HttpMessage::readBody')
     ctx.analysed(b)
